@@ -277,6 +277,7 @@ class Tally:
         self.inconclusive = 0
         self.cex = []
         self.reach = False
+        self.stop = False
         self.sample = None
         self.world = world
         self.encoded_filter = encoded_filter
@@ -296,7 +297,7 @@ class Tally:
         return r
 
     # one solver-decided obligation at the end of a path
-    def decide(self, ex, neg_prop, assumptions=(), on_sat=None, timeout_ms=None, label=None, robust=None):
+    def decide(self, ex, neg_prop, assumptions=(), on_sat=None, timeout_ms=None, label=None, robust=None, with_side=True):
         """neg_prop: exact negation of the property (decides held / not held).  robust: optional stronger
         negation (violation by a margin) used only to pick a counterexample that replays in float64."""
         import z3
@@ -305,10 +306,10 @@ class Tally:
             if _probe_witness(ex, assumptions):
                 self.reach = True
             else:
-                r0, _ = ex.query(*assumptions, timeout_ms=timeout_ms)
+                r0, _ = ex.query(*assumptions, timeout_ms=timeout_ms, with_side=with_side)
                 if r0 == z3.sat:
                     self.reach = True
-        r, m = ex.query(*assumptions, neg_prop, timeout_ms=timeout_ms)
+        r, m = ex.query(*assumptions, neg_prop, timeout_ms=timeout_ms, with_side=with_side)
         if self.sample is None:
             s = str(z3.simplify(neg_prop) if not isinstance(neg_prop, bool) else neg_prop)
             self.sample = {"label": label, "negated_property": s[:600],
@@ -320,7 +321,7 @@ class Tally:
             self.inconclusive += 1
             return "unknown"
         if robust is not None:
-            r2, m2 = ex.query(*assumptions, robust, timeout_ms=timeout_ms)
+            r2, m2 = ex.query(*assumptions, robust, timeout_ms=timeout_ms, with_side=with_side)
             if r2 == z3.sat:
                 m = m2
         if on_sat is not None:
@@ -329,6 +330,11 @@ class Tally:
                 if label and "label" not in cex:
                     cex["label"] = label
                 self.cex.append(cex)
+                if cex.get("reproduced"):
+                    # one replay-confirmed counterexample decides the job: stop exploring (keeps a broken tree from
+                    # turning the check into a long non-linear model search)
+                    self.stop = True
+                    ex.halt = True
         return "sat"
 
 
@@ -352,7 +358,7 @@ def _probe_witness(ex, assumptions):
     distinct small rationals; True only if everything evaluates to true (otherwise the solver is asked)"""
     import z3
     try:
-        conj = list(ex.pc) + list(ex.defs) + list(ex.side) + list(assumptions)
+        conj = list(ex.pc) + list(ex.defs) + list(ex.side) + list(getattr(ex, 'facts', [])) + list(assumptions)
         if not conj:
             return True
         for shift in (0, 3, 11):
